@@ -167,6 +167,9 @@ def persistent(d0: int, d1: int, d2: int, order: int) -> bool:
                 if resp[i]['start'][1] != b'404':
                     return fail('request %d names no route but was not answered 404' % i, start=repr(resp[i]['start']))
                 continue
+            xm = [v for k, nm, v in resp[i]['headers'] if k == b'x-method']
+            if xm != [b'POST' if bodies[i] else b'GET']:
+                return fail('request %d reached its route with a different method (request bytes lost or shifted)' % i, method=repr(xm))
             want = origins[i] + b':/' + origins[i] + b'/r%d' % i + B(ds[i])
             if resp[i]['body'] != want:
                 return fail('response %d is not the one of request %d' % (i, i), got=repr(resp[i]['body']), want=repr(want))
@@ -192,6 +195,8 @@ def persistent(d0: int, d1: int, d2: int, order: int) -> bool:
         if len(got) != len(mine):
             return fail('an upstream received a different number of requests than name it', upstream=us.name, got=len(got), want=len(mine))
         for m, i in zip(got, mine):
+            if m['start'][0] != (b'POST' if bodies[i] else b'GET'):
+                return fail('request %d reached the upstream with a different method (request bytes lost or shifted)' % i, got=repr(m['start'][0]))
             if bodies[i] and m['body'] != b'B%d' % i:
                 return fail('request body not intact', got=repr(m['body']))
             if role == 'reverse':
